@@ -267,6 +267,8 @@ def lang_trace(tid, res, pws, meta, desc):
         guesses.update(lines)
         if n_guess > 400000:
             return None
+    if not supported and not guesses:
+        return None     # nothing but unsupported structures: the non-Markov language is empty, C03 says nothing about it
     I = {}
     ident = lambda s: I.setdefault(s, len(I) + 1)
     missing = [p for p in supported if p not in guesses]
@@ -286,7 +288,9 @@ def main(pid, tier, seed):
     n_lists = 10 if tier == 'quick' else 500
     n_train = 0
     n_alpha_retry = 0
-    for k in range(n_lists):
+    from . import lists as _lists
+    specials = sorted(_lists.special_lists().items())
+    for k in range(n_lists + len(specials)):
         pool = rng.choice(list(POOLS))
         enc = rng.choice(ENC_OF[pool])
         coverage = rng.choice([0.25, 0.6, 1, 0.6, 0.5] if pid == 'C03' else [0, 0.25, 0.6, 1, 0.6, 0.7])
@@ -295,6 +299,12 @@ def main(pid, tier, seed):
         pws = make_list(rng, pool, with_ew=(pool == 'ascii' and rng.random() < 0.6))
         if k == 1:
             pws = tie_list(rng, pool)
+        if k >= n_lists:
+            # the shared special lists (lists.py)
+            sname, (pws, sopt) = specials[k - n_lists]
+            pws = list(pws)
+            pool, enc = 'special:' + sname, 'utf-8'
+            coverage = sopt.get('coverage', 0.6 if coverage == 0 else coverage)
         if k == 0 and pid == 'C06':
             # unsupported structures dominate
             pws = ['bob@aol.com'] * 4 + ['www.google.com12', 'x@y.org1', 'pass'] + ['a.b@gmail.com!'] * 2
